@@ -151,7 +151,7 @@ class OptimizedChoice(Expression):
     def pattern(self) -> re.Pattern[str]:
         """The compiled regex."""
         if self._compiled is None:
-            self._compiled = re.compile(self.build_optimized_pattern(), re.VERSION1)
+            self._compiled = re.compile(self.build_optimized_pattern())
         return self._compiled
 
     def parse(self, state: ParserState, pairs: list[Pair]) -> bool:  # noqa: ARG002
@@ -166,7 +166,7 @@ class OptimizedChoice(Expression):
         gen.writeln("# <ChoiceRegex>")
 
         pattern = self.build_optimized_pattern()
-        re_var = gen.constant("RE", f"re.compile({pattern!r}, re.VERSION1)")
+        re_var = gen.constant("RE", f"re.compile({pattern!r})")
 
         gen.writeln(f"if match := {re_var}.match(state.input, state.pos):")
         with gen.block():
@@ -235,11 +235,15 @@ def is_order_independent(choices: list[ChoiceChoice]) -> bool:
         if isinstance(a, ChoiceLiteral):
             x, y = (a.value, b.value)
             if insensitive:
-                x, y = x.lower(), y.lower()
+                # "ſ".lower() is not "s", but they match regardless of case.
+                x, y = x.casefold(), y.casefold()
             return x.startswith(y) or y.startswith(x)
-        first = b.value[:1]
-        variants = {first, first.lower(), first.upper()} if insensitive else {first}
-        return any(a.start <= v <= a.end for v in variants if len(v) == 1)
+        if insensitive:
+            # The characters that match `b`'s first character regardless of
+            # case are not just its upper and lower case forms ("k" matches
+            # U+212A KELVIN SIGN): be conservative.
+            return True
+        return a.start <= b.value[:1] <= a.end
 
     for i, a in enumerate(choices):
         for b in choices[i + 1 :]:
